@@ -249,6 +249,7 @@ func stackSig(stack []byte, max int) string {
 }
 
 func parseCall(job *fwproto.Job, st *fwproto.Step, runDir, root string, modules map[string]*ast.Module) (call fwproto.Call) {
+	freshCache := len(modules) == 0
 	rootPath := filepath.Join(runDir, root)
 	var diags []ddperror.Error
 	handler := func(e ddperror.Error) {
@@ -319,7 +320,10 @@ func parseCall(job *fwproto.Job, st *fwproto.Step, runDir, root string, modules 
 		call.Modules = append(call.Modules, s)
 	}
 	sort.Strings(call.Modules) // sorted after normalisation: independent of the work directory
-	if len(call.Viol) == 0 { // the call returned: evaluate C07 invariants
+	// the call returned: evaluate the C07 invariants — only for calls that start from an empty module cache, because
+	// the property speaks about one compilation (with a reused cache a module may be faulty through errors that were
+	// delivered in an earlier call)
+	if len(call.Viol) == 0 && freshCache {
 		checkC07(&call, mod, err, diags, modules, runDir)
 	}
 	return
